@@ -8,7 +8,7 @@
     bound token, with call data of every outcome kind, with fees), relays, acknowledgements (late, out of
     order, duplicated, premature: rejected ones change nothing) and fee top-ups of all chains. *)
 From Coq Require Import List Arith PeanoNat NArith Bool Lia.
-From Teleport Require Import Base.Outcome Model.Bridge Model.BridgeCheck Proofs.Bridge Proofs.BridgeOutcome.
+From Teleport Require Import Base.Outcome Model.Bridge Model.BridgeCheck Proofs.Bridge Proofs.BridgeOutcome Proofs.BridgeBacking.
 Import ListNotations.
 Local Open Scope N_scope.
 
@@ -40,6 +40,25 @@ Theorem C03_history_preserves : forall cfg h s,
   cfg_consistent cfg -> Good cfg s -> Good cfg (run cfg s h).
 Proof. intros cfg h s Hc. exact (run_good cfg Hc h s). Qed.
 Print Assumptions C03_history_preserves.
+
+(** * The counters are backed by real tokens *)
+
+(** In every reachable state, on every chain: the endpoint contract HOLDS at least the sum of its [outTokens]
+    of each token (what is counted as escrowed is really there: a release or refund can always be paid), and
+    the total supply of each token = the supply issued locally (constant over the history) + the sum of its
+    [bindings[..].amount] (bridged tokens are minted / burned only against the bindings). *)
+Theorem C03_backing : forall cfg s0 h,
+  cfg_consistent cfg -> init_ok s0 ->
+  (forall A t, sum_over (nchains cfg) (out_tokens (chains (run cfg s0 h) A) t) <= bal (chains (run cfg s0 h) A) t Endpoint) /\
+  (forall c t, supply (chains (run cfg s0 h) c) t
+               = supply (chains s0 c) t + sum_over (nchains cfg) (bind_amt (chains (run cfg s0 h) c) t)).
+Proof. intros cfg s0 h Hc Hi. exact (run_backed_init cfg Hc s0 h Hi). Qed.
+Print Assumptions C03_backing.
+
+Theorem C03_backing_step : forall cfg base s o s',
+  wf cfg s -> Backed cfg base s -> step cfg s o = Ok s' -> Backed cfg base s'.
+Proof. exact step_backed. Qed.
+Print Assumptions C03_backing_step.
 
 (** * One outcome *)
 
@@ -142,6 +161,11 @@ Theorem C03_monitor_complete : forall cfg U cs ps A B t,
   end.
 Proof. exact conserved_all_complete. Qed.
 Print Assumptions C03_monitor_complete.
+
+Theorem C03_monitor_escrow_sound : forall cfg U s,
+  u_n U = nchains cfg -> escrow_backed cfg s -> escrow_solvent U (chains s) = true.
+Proof. exact escrow_solvent_sound. Qed.
+Print Assumptions C03_monitor_escrow_sound.
 
 (** The hypothesis [cfg_consistent] holds for every binding list that passes the executable check run on
     each history of the correspondence. *)
